@@ -32,6 +32,7 @@ TEXT_ALPHABET = (
     "\x00\x01\x1f\x7f\u0080éÿĀΩ中文�￿\U0001f600\U0010ffff́​"
     "ﬁ²Ａ\u00a0Ⅳá"
     "%%{}\u212a\u017f\u0131\u0130\u0661"
+    "\u07ff\u0800\ud7ff\ue000\ufeff\ufffe\U00010000\u2028\u2029\u0085\u200e\u202e\u01c5"
 )
 
 
@@ -139,7 +140,7 @@ def g_listlen(r: random.Random, p: Profile) -> int:
         return r.choice([0, 1, 1, 2, 2, 3])
     if x < 0.95:
         return min(p.max_list, r.randrange(0, 12))
-    return min(p.max_list, r.choice([10, 127, 128, 300]))
+    return min(p.max_list, r.choice([10, 31, 32, 33, 63, 64, 65, 127, 128, 129, 255, 256, 257, 300]))
 
 
 def g_opt(r: random.Random, gen):
@@ -158,7 +159,7 @@ def g_descr(r: random.Random) -> str:
 
 
 def g_number(r: random.Random) -> str:
-    return r.choice(["0", "1", "2", "9", "10", "19", "100", "840", "113556", "4294967296", str(r.randrange(0, 5000))])
+    return r.choice(["0", "1", "2", "9", "10", "19", "100", "840", "113556", "4294967296", "2147483648", "18446744073709551616", "1" + "0" * 39, "65535", "16384", str(r.randrange(0, 5000))])
 
 
 def g_numericoid(r: random.Random, min_arcs=2) -> str:
@@ -248,7 +249,7 @@ def g_control(r: random.Random, p: Profile) -> tuple:
 def g_controls(r: random.Random, p: Profile) -> tuple:
     k = r.choice([0, 0, 0, 1, 1, 2, 3])
     if r.random() < 0.01:
-        k = r.choice([10, 40])
+        k = r.choice([10, 31, 32, 40, 64, 128, 129])
     return tuple(g_control(r, p) for _ in range(k))
 
 
@@ -266,7 +267,7 @@ def g_filter(r: random.Random, p: Profile, depth=None, wire_domain=True) -> tupl
             return ("not", g_filter(r, p, depth - 1))
         fan = r.choice([0, 1, 1, 2, 2, 3, p.fan])
         if r.random() < 0.004:
-            fan = 130
+            fan = r.choice([31, 32, 63, 64, 127, 128, 130, 256])
         kids = [g_filter(r, p, depth - 1 if i == 0 else r.randrange(0, depth)) for i in range(fan)]
         return (k, tuple(kids))
     k = r.choice(FILTER_LEAVES)
